@@ -266,17 +266,20 @@ private:
           static_assert(std::is_same_v<decltype(stopToken), ST>);
 
           UNIFEX_TRY {
-            stream_.nextOp_.construct_with([&] {
+            // the stop callback may run inside its registration, complete the
+            // receiver and thereby destroy *this: do not touch members after it
+            auto& strm = stream_;
+            strm.nextOp_.construct_with([&] {
               return unifex::connect(
-                  next(stream_.source_), next_receiver{stream_});
+                  next(strm.source_), next_receiver{strm});
             });
-            stream_.nextReceiver_ = &concreteReceiver_;
-            stream_.state_.store(
+            strm.nextReceiver_ = &concreteReceiver_;
+            strm.state_.store(
                 state::source_next_active, std::memory_order_relaxed);
             UNIFEX_TRY {
               stopCallback_.construct(
-                  std::move(stopToken), cancel_next_callback{stream_});
-              unifex::start(stream_.nextOp_.get());
+                  std::move(stopToken), cancel_next_callback{strm});
+              unifex::start(strm.nextOp_.get());
             }
             UNIFEX_CATCH(...) {
               stream_.nextReceiver_ = nullptr;
